@@ -7,11 +7,12 @@ from .report import VERIF
 LEVEL = {"C19": "exploration", "C20": "exploration"}
 
 EFF_FAMILIES = {
-    "C01": ["PROV", "FRAME-view", "POP-own", "FRAME-kernel"],
+    # INIT: every call starts from the fresh per-run state that the other obligations of the hooks take for granted
+    "C01": ["PROV", "FRAME-view", "POP-own", "FRAME-kernel", "INIT"],
     "C14": ["FRAME-kernel"],
-    "C02": ["PROV", "FRAME-view", "CALLS"],
+    "C02": ["PROV", "FRAME-view", "CALLS", "INIT"],
     "C04": ["FRAME-book"],
-    "C05": ["CALLS", "PROV", "FRAME-kernel"],
+    "C05": ["CALLS", "PROV", "FRAME-kernel", "INIT"],
     "C07": ["READS-rng", "INIT"],          # equal seed => equal run also on a used instance (histories)
     "C08": ["INIT", "FRAME-book", "FRAME-cfg"],   # a run that writes into its configuration hands state to the next run
     "C19": ["CTOR"],                               # a grid point is evaluated with exactly its parameters: set_config_parameters is C(**d)
